@@ -98,6 +98,13 @@ def templates(tier="quick"):
                              label="ninja -j4 -k0 -l2 (load average %s) faults=p1:1" % load))
     T.append(scenario("load_limit/fresh", "template", [v], ops=lops, init=[], depth=1, tags=["pool", "load", "fresh"]))
 
+    # T11b a phony statement bound to the pool (a build-level `pool =` on an alias) that becomes ready in the middle of the
+    # build, with more members of the pool behind it than the pool is deep
+    v = Variant("v0", [Stmt("a", ex=["s"]), Stmt("al", ex=["a"], phony=True, pool="one"), Stmt("p1", ex=["al"], pool="one"),
+                       Stmt("p2", ex=["al"], pool="one"), Stmt("p3", ex=["al", "t"], pool="one"), Stmt("q", ex=["p1", "p2", "p3"])],
+                pools={"one": 1})
+    T += _mk("pool_with_phony_member", [v], tags=["pool", "phony"], depth=min(d, 2), js=(2, 3), max_fault_stmts=1, with_rm=False)
+
     # T12 console pool
     v = Variant("v0", [Stmt("c1", ex=["s"], pool="console"), Stmt("c2", ex=["t"], pool="console"),
                        Stmt("n", ex=["s"]), Stmt("top", ex=["c1", "c2", "n"])])
